@@ -385,3 +385,40 @@ mod tests {
     }];
 }
 */
+
+// Verification hooks (only compiled with `--cfg ax_verif`): read-only view of the syscall state
+#[cfg(ax_verif)]
+#[allow(clippy::type_complexity)]
+impl Axecutor {
+    /// (registered syscall numbers, brk_start, brk_length, write end -> read end, read end -> write end, read end -> contents), maps sorted by key
+    pub fn verif_syscall_state(
+        &self,
+    ) -> (
+        Vec<u16>,
+        u64,
+        u64,
+        Vec<(u64, u64)>,
+        Vec<(u64, u64)>,
+        Vec<(u64, Vec<u8>)>,
+    ) {
+        let s = &self.state.syscalls;
+        let mut w: Vec<(u64, u64)> = s.pipes_write_ends.iter().map(|(a, b)| (*a, *b)).collect();
+        w.sort();
+        let mut r: Vec<(u64, u64)> = s.pipes_read_ends.iter().map(|(a, b)| (*a, *b)).collect();
+        r.sort();
+        let mut c: Vec<(u64, Vec<u8>)> = s
+            .pipe_contents
+            .iter()
+            .map(|(a, b)| (*a, b.clone()))
+            .collect();
+        c.sort();
+        (
+            s.registered.iter().map(|x| *x as u16).collect(),
+            s.brk_start,
+            s.brk_length,
+            w,
+            r,
+            c,
+        )
+    }
+}
